@@ -441,6 +441,13 @@ func (x *actorSystem) authenticateLocalWorkPullingWorker(sender *PID, producerNa
 		return nil, "", err
 	}
 
+	// the companion starts (and may register) before ensureReliableCompanion
+	// attaches it to the actor tree; a Watch on an unattached PID is a silent
+	// no-op, so such a registration must wait for the next tick
+	if _, attached := x.actors.node(sender.ID()); !attached {
+		return nil, "", fmt.Errorf("%w: companion=%s is not attached to the actor tree yet", errReliableCompanionUnavailable, sender.Name())
+	}
+
 	consumer := endpoint.reliableDelivery
 	if consumer == nil || consumer.consumer == nil || consumer.consumer.producerName != producerName {
 		return nil, "", fmt.Errorf("%w: worker endpoint=%s does not name producer=%s", errReliableCompanionUnavailable, spec.endpointName, producerName)
